@@ -17,6 +17,9 @@ import (
 
 // extraInfo is the ExtraInfo of the registered side chain as the router expects it.
 func (c *simChain) extraInfo() []byte {
+	if c.v.bor {
+		return mustJSON(map[string]interface{}{"Sprint": uint64(borSprint), "Period": uint64(blockPeriod), "ProducerDelay": uint64(borDelay), "BackupMultiplier": uint64(borBackup), "HeimdallPolyChainID": uint64(0)})
+	}
 	m := map[string]interface{}{"ChainID": big.NewInt(evmChainID)}
 	if c.v.period {
 		m["Period"] = uint64(blockPeriod)
@@ -44,7 +47,22 @@ type heightAndValidators struct {
 func (c *simChain) genesisBytes(pretty bool) []byte {
 	root := c.nodes[0]
 	var v interface{}
-	if c.v.clique {
+	if c.v.bor {
+		type val struct {
+			ID      uint64          `json:"ID"`
+			Address ecommon.Address `json:"signer"`
+			Power   int64           `json:"power"`
+			Accum   int64           `json:"accum"`
+		}
+		var vals []*val
+		for i, a := range c.prevSet {
+			vals = append(vals, &val{ID: uint64(i + 1), Address: a, Power: 10})
+		}
+		v = map[string]interface{}{
+			"Header":   root.hdr,
+			"Snapshot": map[string]interface{}{"hash": root.hash, "validatorSet": map[string]interface{}{"validators": vals, "proposer": vals[c.propIdx]}},
+		}
+	} else if c.v.clique {
 		v = root.hdr
 	} else {
 		v = map[string]interface{}{
@@ -83,6 +101,9 @@ func (c *simChain) keyHeader(hash ecommon.Hash) [][]byte {
 type storedHeader struct {
 	Header        json.RawMessage `json:"header"`
 	DifficultySum *big.Int        `json:"difficultySum"`
+	Bor           *struct {
+		Header json.RawMessage
+	} `json:"headerWithOptionalSnap"`
 }
 
 type lcState struct {
@@ -90,7 +111,9 @@ type lcState struct {
 	c *simChain
 }
 
-func (s lcState) has(hash ecommon.Hash) bool { return s.v.Has(chain.HeaderSync, s.c.keyHeader(hash)...) }
+func (s lcState) has(hash ecommon.Hash) bool {
+	return s.v.Has(chain.HeaderSync, s.c.keyHeader(hash)...)
+}
 
 // record decodes the stored header record: hash of the stored header content and its total difficulty.
 func (s lcState) record(hash ecommon.Hash) (contentHash ecommon.Hash, td *big.Int, err error) {
@@ -101,6 +124,9 @@ func (s lcState) record(hash ecommon.Hash) (contentHash ecommon.Hash, td *big.In
 	var rec storedHeader
 	if err = json.Unmarshal(raw, &rec); err != nil {
 		return
+	}
+	if s.c.v.bor && rec.Bor != nil {
+		rec.Header = rec.Bor.Header
 	}
 	var hdr etypes.Header
 	if err = json.Unmarshal(rec.Header, &hdr); err != nil {
